@@ -261,6 +261,30 @@ CHECKS.update({
 NOT_YET = "check not built yet (work in progress)"
 NA = {}
 
+# round 4 (DESIGN.md 13.20): what each check gained, appended to its level text
+ROUND4 = {
+    "C01": " Round 4: the edges of the two unsigned 64-bit snapshot fields (2^63 - 1, 2^63, 2^64 - 1) are value classes.",
+    "C05": " Round 4: all repeated count fields of a payload set to the same boundary class; signed boundary classes of the 1.x beat-index "
+           "fields alone and in adjacent pairs.",
+    "C07": " Round 4: after every probe call (handles to removed crates, crates of another library, ids of nothing) the forest invariants are "
+           "evaluated on the observation alone (TraceLibrary!SelfForestOK).",
+    "C09": " Round 4: V2Store!SpecInd - from EVERY store within the id bounds that satisfies RowsInv (reachable or not) one call with every "
+           "injected failure keeps RowsInv, implies the Library invariants and is a Library step: the bound on the number of calls is gone.",
+    "C10": " Round 4: track level - every base snapshot, every value class of every field and seed-chosen snapshots with a reload after every "
+           "call (TraceTrackFields!TReopen).",
+    "C11": " Round 4: foreign keys of every attached database checked by name; V1Store!SpecInd (induction step as for 2.x); the re-parenting "
+           "graph over 4 crates with exact row prediction.",
+    "C13": " Round 4: legacy layout without its companion p.db (64 directories).",
+    "C15": " Round 4: INT64_MIN / -1 and rates beyond the 64-bit range in the probe battery; the re-parenting graph over 4 crates in the "
+           "sanitizer build; forest invariants on the observation after every probe.",
+    "C16": " Round 4: lookups by path with near-miss arguments (other separator, other case, padding, empty) are observers; stored paths with "
+           "Windows separators and mixed case.",
+    "C17": " Round 4: index terms that are expressions (appended / prepended) are mutation kinds.",
+    "C18": " Round 4: the last-edit time of playlist rows on both sides of the epoch is written by add / update and read back through get().",
+    "C20": " Round 4: extreme inputs (beat indices at the edges of int32, sample counts up to 2^63 - 1) in the sanitizer build, judged by "
+           "TraceBeatgrid!ExtremeOK.",
+}
+
 
 def main():
     props = [json.loads(l) for l in open(os.path.join(VERIF, "properties.jsonl"))]
@@ -273,7 +297,8 @@ def main():
             "evidence_file": "/verif/evidence/%s.json" % pid,
             "replay_cmd_template": "tools/check %s --replay {path}" % pid,
             "engine": "tlc",
-            "level_claimed": {"category": c["category"], "text": c["text"], "design_ref": c["design"]},
+            "level_claimed": {"category": c["category"], "text": c["text"] + ROUND4.get(pid, ""),
+                              "design_ref": c["design"] + (", §13.20" if pid in ROUND4 else "")},
             "level_note": c["note"],
             "technique": c["technique"],
         })
